@@ -15,6 +15,7 @@ import re
 import c15_corpus as C
 import c15_layout as L
 import c15_model as M
+import c15_tokcases as TC
 import os
 
 from lib import (Check, COMMON_TRUSTED, VERIF, compile_batch, eval_cases, known_for, run_py)
@@ -92,10 +93,10 @@ def same_result(a, b):
 
 def minimise(p, base_res, new_src):
     """Smallest set of re-laid-out runs (found greedily) that still changes the result.  Returns (changed, src, res)."""
-    segs = L.segments(p["src"])
-    new_segs = L.segments(new_src)
-    if [k for k, _ in segs] != [k for k, _ in new_segs]:
+    al = L.aligned_segments(p["src"], new_src)
+    if al is None:
         return None, new_src, None
+    segs, new_segs = al
     old = [t for k, t in segs if k == "lay"]
     new = [t for k, t in new_segs if k == "lay"]
     changed = {i: new[i] for i in range(len(old)) if old[i] != new[i]}
@@ -139,6 +140,10 @@ def strip_comments_run(run: str) -> str:
     """the same run with every // comment removed (newlines kept)"""
     out = re.sub(r"//[^\n]*", "", run)
     return out if out else "\n"
+
+
+def first_comment_glued(changed) -> bool:
+    return any(v.startswith("//") for v in (changed or {}).values())
 
 
 def inside_call(src: str, pos: int, name: str) -> bool:
@@ -204,19 +209,8 @@ def in_json_body(src: str, pos: int) -> bool:
     return False
 
 
-def known_class(p, base_res, changed, src, res):
-    """Which known finding explains a minimised failing re-layout (None = it is a violation)."""
-    if res is None or res["ok"] or not changed or len(changed) != 1:
-        return None
-    (k, run), = changed.items()
-    if "//" not in run:
-        return None
-    # the same run without its comment must be harmless
-    segs = L.segments(p["src"])
-    plain = compile_batch([job_of(p, apply_runs(segs, {k: strip_comments_run(run)}))], chunk=1)[0]
-    if not same_result(base_res, plain):
-        return None
-    # offset of the run in the re-laid-out text
+def run_offset(segs, k: int) -> int:
+    """offset of the k-th layout run in any text that has these segments before it"""
     off, kk = 0, 0
     for kind, text in segs:
         if kind == "lay":
@@ -224,7 +218,31 @@ def known_class(p, base_res, changed, src, res):
                 break
             kk += 1
         off += len(text)
-    pos = off + run.find("//")
+    return off
+
+
+def in_known_region(src: str, pos: int) -> bool:
+    return in_json_body(src, pos) or inside_call(src, pos, "Hardcode.calc")
+
+
+def known_class(p, base_res, changed, src, res, plain=None):
+    """Which known finding explains a minimised failing re-layout (None = it is a violation).  `plain`: the result of
+    compiling the same text with the comment of the changed run removed, if the caller already has it."""
+    if res is None or res["ok"] or not changed or len(changed) != 1:
+        return None
+    (k, run), = changed.items()
+    if "//" not in run:
+        return None
+    # the same run without its comment must be harmless
+    al = L.aligned_segments(p["src"], src)
+    if al is None:
+        return None
+    segs = al[0]
+    if plain is None:
+        plain = compile_batch([job_of(p, apply_runs(segs, {k: strip_comments_run(run)}))], chunk=1)[0]
+    if not same_result(base_res, plain):
+        return None
+    pos = run_offset(segs, k) + run.find("//")      # offset of the comment in the re-laid-out text
     for f in known_entries():
         m = f.get("match", {})
         if res["exc"] in m.get("exc", []) and any(s in res["msg"] for s in m.get("msg_contains", [""])):
@@ -246,6 +264,27 @@ def file_diff(a, b):
 
 # --------------------------------------------------------------------------- model tie
 
+def directed_cases(rng, tier):
+    """Tokenizer.parse called directly on the comment-behind-every-token grammar of c15_tokcases -> (calls, histogram)"""
+    jobs, meta = TC.gen(rng, 500 if tier == "quick" else 4000)
+    res = []
+    for i in range(0, len(jobs), 400):
+        res += run_py(RUNNER, dict(op="parse", jobs=jobs[i:i + 400]), timeout=900)
+    calls, hist = [], dict(glue={}, behind={}, content={}, continuation={}, nesting={}, glued_behind={})
+    for j, r, m in zip(jobs, res, meta):
+        c = dict(j, ok=bool(r["ok"]))
+        if r["ok"]:
+            c["programs"] = r["programs"]
+        else:
+            c["exc"] = r.get("exc")
+        calls.append(c)
+        for key, field in (("glue", "glue"), ("behind", "pre"), ("content", "content"), ("continuation", "next"), ("nesting", "wrap")):
+            hist[key][m[field]] = hist[key].get(m[field], 0) + 1
+        if m["glue"] == "glued":
+            hist["glued_behind"][m["pre"]] = hist["glued_behind"].get(m["pre"], 0) + 1
+    return calls, hist
+
+
 def model_tie(ck, progs, rng, tier, check_end, case_fix):
     lay = L.layouts(rng)
     names = list(lay)
@@ -263,7 +302,9 @@ def model_tie(ck, progs, rng, tier, check_end, case_fix):
         traces += run_py(RUNNER, dict(op="trace", jobs=jobs[i:i + 60]), timeout=900)
     cases, raw, conns, seen, cseen = [], [], [], set(), set()
     skipped_nonascii = 0
-    for r in traces:
+    dcalls, dhist = directed_cases(rng, tier)
+    n_directed = 0
+    for r in [dict(calls=dcalls, conns=[])] + traces:       # the directed cases first: never cut by the cap
         for c in r["calls"]:
             key = json.dumps(c, sort_keys=True)
             if key in seen:
@@ -274,6 +315,7 @@ def model_tie(ck, progs, rng, tier, check_end, case_fix):
                 continue
             cases.append(M.case_term(c, check_end, case_fix=case_fix))
             raw.append(c)
+            n_directed += r["calls"] is dcalls
         for cur, prev, b in r["conns"]:
             key = json.dumps([cur, prev, b])
             if key in cseen:
@@ -291,7 +333,7 @@ def model_tie(ck, progs, rng, tier, check_end, case_fix):
     info = dict(parse_calls=len(cases), parse_error_cases=sum(1 for c in raw if not c["ok"]),
                 parse_mismatches=len(bad), model_declined=len(uns), out_of_scope_event_cases=len(evs),
                 skipped_non_ascii=skipped_nonascii, is_connected_decisions=len(conns), is_connected_mismatches=len(cbad),
-                programs_traced=len(jobs))
+                programs_traced=len(jobs), directed_comment_cases=n_directed, directed_histogram=dhist)
     problems = []
     for e in errs + errs2 + errs3 + errs4:
         problems.append(dict(kind="correspondence-file-failed", log=e))
@@ -313,7 +355,10 @@ def model_pairs(ck, sample, rng, tier, case_fix):
         if not M.is_ascii(p["src"]) or "`" in p["src"]:
             continue
         n = rng.choice(list(lay))
-        pairs.append((p["src"], lay[n](p["src"])))
+        b = lay[n](p["src"])
+        if not M.is_ascii(b):
+            continue
+        pairs.append((p["src"], b))
     bad, errs = eval_cases(PROP, M.HEADER, [M.pair_term(a, b, 6, case_fix) for a, b in pairs], per_file=60,
                            checker="pair_mismatches", prefix="pairs", timeout=900)
     return len(pairs), [pairs[i] for i in bad], errs
@@ -321,8 +366,11 @@ def model_pairs(ck, sample, rng, tier, case_fix):
 
 # --------------------------------------------------------------------------- main
 
-def metamorphic(ck, progs, rng, tier):
-    lay = L.layouts(rng)
+SYMMETRIC_LAYOUTS = ("single_line", "token_per_line", "wide")
+
+
+def metamorphic(ck, progs, rng, tier, stats):
+    lay = L.layouts(rng, stats)
     base = compile_batch([job_of(p) for p in progs], chunk=40)
     accepted = [i for i, r in enumerate(base) if r["ok"]]
     jobs, meta = [], []
@@ -334,9 +382,33 @@ def metamorphic(ck, progs, rng, tier):
                 continue
             jobs.append(job_of(progs[i], src))
             meta.append((i, name, src))
-    res = compile_batch(jobs, chunk=60)
+    # relayout is symmetric: a program that is REJECTED as written must stay rejected in its canonical layouts
+    # (otherwise the accepted layout is a base whose re-layout - the text as written - is rejected)
+    rejected = [i for i, r in enumerate(base) if not r["ok"] and r.get("exc") != "Timeout"]
+    rjobs, rmeta = [], []
+    for i in rejected:
+        for name in SYMMETRIC_LAYOUTS:
+            try:
+                src = lay[name](progs[i]["src"])
+            except AssertionError:
+                continue
+            if L.aligned_segments(src, progs[i]["src"]) is None:
+                continue
+            rjobs.append(job_of(progs[i], src))
+            rmeta.append((i, name, src))
+    res = compile_batch(jobs + rjobs, chunk=60)
+    rres = res[len(jobs):]
+    res = res[:len(jobs)]
     failing = [(i, name, src, r) for (i, name, src), r in zip(meta, res) if not same_result(base[i], r)]
-    return base, accepted, len(jobs), failing, list(lay)
+    done = set()
+    for (i, name, src), r in zip(rmeta, rres):
+        if r["ok"] and i not in done:
+            done.add(i)
+            progs.append(dict(progs[i], src=src, origin=str(progs[i].get("origin")) + "/accepted-only-as-" + name))
+            base.append(r)
+            failing.append((len(progs) - 1, "as_written", progs[i]["src"], base[i]))
+    return base, accepted, len(jobs), failing, list(lay), dict(rejected_bases=len(rejected), rejected_relayouts=len(rjobs),
+                                                               accepted_after_relayout=len(done))
 
 
 def main(tier: str) -> int:
@@ -353,15 +425,17 @@ def main(tier: str) -> int:
     pr = ck.proof(extra_targets=["Run/C15.vo"])
 
     progs, note = build_corpus(ck.rng, tier)
-    base, accepted, npairs, failing, layout_names = metamorphic(ck, progs, ck.rng, tier)
+    lstats = {}
+    base, accepted, npairs, failing, layout_names, sym = metamorphic(ck, progs, ck.rng, tier, lstats)
 
     # ---- classify differing pairs
     reported, known_n, viol_n = set(), 0, 0
     per_layout = {}
     for i, name, src, r in failing:
         per_layout[name] = per_layout.get(name, 0) + 1
-    prio = {n: k for k, n in enumerate(["token_per_line", "newline_in_brackets", "single_line", "tabs", "wide",
-                                        "random_runs", "trailing_comments", "mixed_comments"])}
+    prio = {n: k for k, n in enumerate(["as_written", "token_per_line", "newline_in_brackets", "single_line", "tabs", "wide",
+                                        "random_runs", "glued_some", "glued_comments", "trailing_comments",
+                                        "mixed_comments", "nasty_comments"])}
     failing.sort(key=lambda f: (prio.get(f[1], 99), len(progs[f[0]]["src"])))
     # every differing pair is minimised and classified (known finding / violation); at most MAX_CLASSIFY pairs, most
     # diverse first; violation *lines* are capped, nothing is silently dropped: unclassified pairs make a violation too.
@@ -373,9 +447,43 @@ def main(tier: str) -> int:
         order.append((seen_sig[sig0], f))
     order.sort(key=lambda x: x[0])
     unclassified = 0
-    for rank, (i, name, src, r) in order:
+    # Phase A (two batches for ALL differing pairs): the known findings are about ONE comment inside a JSON body /
+    # inside Hardcode.calc( ): try exactly those single runs first; a pair explained by one of them (that run alone
+    # changes the result, the same run without its comment does not, diagnostic and place match a known entry) is done.
+    cand = []          # (index in order, k, run, msrc)
+    for oi, (rank, (i, name, src, r)) in enumerate(order):
+        al = L.aligned_segments(progs[i]["src"], src)
+        if al is None or r["ok"]:
+            continue
+        segs, new_segs = al
+        old = [t for k, t in segs if k == "lay"]
+        new = [t for k, t in new_segs if k == "lay"]
+        n_c = 0
+        for k in range(len(old)):
+            if old[k] != new[k] and "//" in new[k] and n_c < 8:
+                msrc = apply_runs(segs, {k: new[k]})
+                if in_known_region(msrc, run_offset(segs, k) + new[k].find("//")):
+                    cand.append((oi, k, new[k], msrc, apply_runs(segs, {k: strip_comments_run(new[k])})))
+                    n_c += 1
+    cres = compile_batch([job_of(progs[order[c[0]][1][0]], c[3]) for c in cand] +
+                         [job_of(progs[order[c[0]][1][0]], c[4]) for c in cand], chunk=40)
+    pre_known = {}
+    for n, (oi, k, run, msrc, _) in enumerate(cand):
+        if oi in pre_known:
+            continue
+        i = order[oi][1][0]
+        single, plain = cres[n], cres[len(cand) + n]
+        if not same_result(base[i], single):
+            kf = known_class(progs[i], base[i], {k: run}, msrc, single, plain=plain)
+            if kf:
+                pre_known[oi] = kf
+    for oi, (rank, (i, name, src, r)) in enumerate(order):
         p = progs[i]
-        if known_n + viol_n >= MAX_CLASSIFY:
+        if oi in pre_known:
+            ck.known(pre_known[oi]["id"], pre_known[oi]["what"])
+            known_n += 1
+            continue
+        if known_n - len(pre_known) + viol_n >= MAX_CLASSIFY:
             unclassified += 1
             continue
         changed, msrc, mres = minimise(p, base[i], src)
@@ -426,11 +534,16 @@ def main(tier: str) -> int:
         evaluations=npairs + info["parse_calls"] + info["is_connected_decisions"],
         distinct_nontrivial=len({progs[i]["src"] for i in accepted}) * len(layout_names),
         rule="metamorphic: every accepted corpus program (test-suite inputs, README example, one program per statement kind, "
-             "adversarial shapes, random nested programs) x 8 re-layouts (single line, one token per line, random runs, tabs, "
-             "trailing // comments, newline inside brackets, wide, mixed comments) -> byte-identical file maps; "
-             "distinct = accepted programs x layouts; tie: each distinct Tokenizer.parse call / is_connected decision is one case",
+             "adversarial shapes, random nested programs) x 11 re-layouts (single line, one token per line, random runs, tabs, "
+             "trailing // comments, newline inside brackets, wide, mixed comments; round 1: a comment GLUED to every token, "
+             "glued comments on a quarter of the runs, nasty comment content glued or spaced + leading comment line + "
+             "comment ended by end of file) -> byte-identical file maps; rejected programs must stay rejected in the "
+             "canonical layouts (relayout is symmetric); distinct = accepted programs x layouts; tie: each distinct "
+             "Tokenizer.parse call / is_connected decision is one case (compiles of the corpus + the directed "
+             "comment-behind-every-token grammar)",
         programs=len(progs), accepted_programs=len(accepted), accepted_by_origin=origins, relayout_pairs=npairs,
-        layouts=layout_names, differing_pairs=len(failing), differing_by_layout=per_layout, known_pairs=known_n,
+        layouts=layout_names, comments_glued_behind=lstats.get("glued_after"), comment_content_classes=lstats.get("content"),
+        file_frames=lstats.get("frames"), symmetric_check=sym, differing_pairs=len(failing), differing_by_layout=per_layout, known_pairs=known_n,
         disagreements_checked=len(failing), corpus_note=note, model_tie=info, model_pairs_evaluated=n_pairs_model,
         samples=[dict(base=progs[i]["src"][:200]) for i in accepted[:2]],
     ))
